@@ -321,7 +321,10 @@ func runCheck(id string, p *prop, tier string, seed int64, onlyBatch int, keep, 
 			gmpSeen[res.GoMaxProcs] = true
 		}
 		// crashes / hangs
-		if !res.Finished || exit[b] != 0 {
+		raceLogs, _ := filepath.Glob(filepath.Join(runDir, fmt.Sprintf("race-b%d.*", b)))
+		if res.Finished && exit[b] != 0 && len(raceLogs) > 0 && !strings.Contains(string(outText), "panic:") && !strings.Contains(string(outText), "fatal error:") {
+			// the test binary exits non-zero when the race detector reported; the reports are read below
+		} else if !res.Finished || exit[b] != 0 {
 			v, inc := classifyCrash(string(outText), exit[b], res.Finished)
 			if v != nil {
 				v.Batch, v.Case = b, curCase
